@@ -194,6 +194,130 @@ fn run_recipe(rep: &mut Report, recipe: &[Op], tag: serde_json::Value, static_mo
     (passes, passes_with_reload)
 }
 
+
+// ---------------------------------------------------------------------------
+// Two loads that overlap on two threads
+// ---------------------------------------------------------------------------
+
+use std::sync::atomic::{AtomicBool, Ordering::SeqCst};
+static OV_ACTIVE: AtomicBool = AtomicBool::new(false);
+static OV_EARLY_STARTED: AtomicBool = AtomicBool::new(false);
+static OV_EARLY_DONE: AtomicBool = AtomicBool::new(false);
+static OV_LATE_STARTED: AtomicBool = AtomicBool::new(false);
+
+fn ov_wait(flag: &AtomicBool) -> Result<(), assets_manager::BoxedError> {
+    if !OV_ACTIVE.load(SeqCst) {
+        return Ok(());
+    }
+    if crate::util::wait_until(if cfg!(miri) { 600_000 } else { 60_000 }, || flag.load(SeqCst)) {
+        Ok(())
+    } else {
+        Err("vh: overlap rendezvous watchdog".into())
+    }
+}
+
+fn ov_read(cache: assets_manager::AnyCache, id: &str) -> Result<(), assets_manager::BoxedError> {
+    use assets_manager::source::Source;
+    let src = cache.raw_source();
+    src.read(id, "a")?;
+    Ok(())
+}
+
+/// Starts first and ends first.
+struct Early;
+impl assets_manager::Compound for Early {
+    fn load(cache: assets_manager::AnyCache, id: &assets_manager::SharedString) -> Result<Self, assets_manager::BoxedError> {
+        ov_read(cache, id)?;
+        OV_EARLY_STARTED.store(true, SeqCst);
+        ov_wait(&OV_LATE_STARTED)?;
+        Ok(Early)
+    }
+}
+
+/// Starts while `Early` is loading, reads its file only after `Early`'s load has returned.
+struct Late;
+impl assets_manager::Compound for Late {
+    fn load(cache: assets_manager::AnyCache, id: &assets_manager::SharedString) -> Result<Self, assets_manager::BoxedError> {
+        ov_wait(&OV_EARLY_STARTED)?;
+        OV_LATE_STARTED.store(true, SeqCst);
+        ov_wait(&OV_EARLY_DONE)?;
+        ov_read(cache, id)?;
+        Ok(Late)
+    }
+}
+
+/// What each of two overlapping loads reads is recorded for it, whichever ends first; also
+/// with the two loads in two caches.
+fn overlapping_loads(rep: &mut Report, rounds: usize) {
+    use crate::mem::{Hot, Mem};
+    use assets_manager::AssetCache;
+    for round in 0..rounds {
+        rep.eval();
+        let two_caches = round % 2 == 1;
+        let mem1 = Mem::new("c14o1", Hot::Yes);
+        let mem2 = if two_caches { Mem::new("c14o2", Hot::Yes) } else { mem1.clone() };
+        mem1.write("ov.e", "a", b"e0");
+        mem2.write("ov.l", "a", b"l0");
+        let c1 = AssetCache::with_source(mem1.clone());
+        let c2_owned;
+        let c2 = if two_caches {
+            c2_owned = AssetCache::with_source(mem2.clone());
+            &c2_owned
+        } else {
+            &c1
+        };
+        for f in [&OV_EARLY_STARTED, &OV_EARLY_DONE, &OV_LATE_STARTED] {
+            f.store(false, SeqCst);
+        }
+        OV_ACTIVE.store(true, SeqCst);
+        let (ok1, ok2) = std::thread::scope(|s| {
+            let t1 = s.spawn(|| {
+                let r = c1.load::<Early>("ov.e").is_ok();
+                OV_EARLY_DONE.store(true, SeqCst);
+                r
+            });
+            let t2 = s.spawn(|| c2.load::<Late>("ov.l").is_ok());
+            (t1.join().unwrap_or(false), t2.join().unwrap_or(false))
+        });
+        OV_ACTIVE.store(false, SeqCst);
+        if !(ok1 && ok2) {
+            rep.inconclusive("overlapping_loads: the rendezvous inside the loaders did not complete");
+            return;
+        }
+        let he = c1.get_cached::<Early>("ov.e").expect("early cached");
+        let hl = c2.get_cached::<Late>("ov.l").expect("late cached");
+        let scen = json!({"kind": "two overlapping loads on two threads, the first to start ends first", "round": round, "two_caches": two_caches});
+        // one single-entry edit per file, each its own pass on both caches
+        for (which, mem, id) in [("late", &mem2, "ov.l"), ("early", &mem1, "ov.e")] {
+            let before = (crate::scen::rid_num(he.last_reload_id()), crate::scen::rid_num(hl.last_reload_id()));
+            mem.write(id, "a", format!("{which}{round}").as_bytes());
+            mem.notify_file(id, "a");
+            for (c, m) in [(&c1, &mem1), (c2, &mem2)] {
+                let sent = m.sent();
+                if !crate::util::wait_until(if cfg!(miri) { 600_000 } else { 120_000 }, || c.verif_events_handled().is_some_and(|h| h >= sent)) {
+                    rep.inconclusive("overlapping_loads: barrier watchdog");
+                    return;
+                }
+                c.hot_reload();
+            }
+            let after = (crate::scen::rid_num(he.last_reload_id()), crate::scen::rid_num(hl.last_reload_id()));
+            let moved = (after.0 - before.0, after.1 - before.1);
+            let want = if which == "late" { (0, 1) } else { (1, 0) };
+            if moved != want {
+                rep.violation(
+                    "reloaded-set",
+                    "C14/reloaded-set:overlapping-loads",
+                    json!({"edited": format!("{id}.a"), "reload_id_moved_by": {"Early ov.e": moved.0, "Late ov.l": moved.1},
+                           "expected": {"Early ov.e": want.0, "Late ov.l": want.1}}),
+                    scen.clone(),
+                );
+            }
+        }
+        rep.count("overlapping_load_rounds", 1);
+        rep.nontrivial(mix(0x140, round as u64));
+    }
+}
+
 pub fn run(args: &Args) -> Report {
     let mut rep = Report::new(args);
     rep.rule = "recipes of the loaded compound enumerated as wrapper-chain(atom) + trailing operation: wrapper chains \
@@ -267,6 +391,10 @@ pub fn run(args: &Args) -> Report {
         if rep.samples.len() < 3 && i % 7 == 3 {
             rep.sample(json!({"shape": name, "recipe": render_recipe(ops)}));
         }
+    }
+    // two loads overlapping on two threads
+    if args.shard == 0 {
+        overlapping_loads(&mut rep, if miri { 2 } else { args.n(20, 200) });
     }
     // random deeper nestings
     let nrand = if miri { 1 } else { args.n(60, 1500) };
